@@ -201,4 +201,13 @@ def componentMulMut (A : Mat α) (c : α) : Mat α :=
   | .identity => { A with data := Array.replicate A.n c, storage := .banded 0 0 }
   | _ => { A with data := A.data.map (· * c) }
 
+/-- `Matrix::fill(value)`: afterwards every entry of the matrix is `value`.  Full storage keeps its buffer; a banded matrix
+    can hold a constant only if it is zero; Identity (and Banded with a non-zero constant) switch to Full storage. -/
+def fill (A : Mat α) (v : α) : Mat α :=
+  match A.storage with
+  | .full => { A with data := A.data.map fun _ => v }
+  | .banded ml mu => if Num.eqb v Num.zero then { A with data := A.data.map fun _ => Num.zero }
+                     else ⟨A.n, A.m, Array.replicate (A.n * A.m) v, .full⟩
+  | .identity => ⟨A.n, A.m, Array.replicate (A.n * A.m) v, .full⟩
+
 end Mat
